@@ -265,6 +265,7 @@ def run(seed, tier, replay=None):
     tol = lambda t: f"{t[0]} {t[1]}"
     with warnings.catch_warnings():
         warnings.simplefilter("ignore")
+        big_i = -1
         for (a, b) in pairs:
             n = a + b - 1
             rep.count("n=%s" % (n if n <= 5 else "6-50" if n <= 50 else "51-300" if n <= 300 else "301-1000" if n <= 1000 else "1001-2000"))
@@ -357,6 +358,29 @@ def run(seed, tier, replay=None):
                 rep.violate(what="beta_highest_density_coverage does not broadcast", input=dict(a=a, b=b, x=xs), call="beta_highest_density_coverage")
             else:
                 add("beta.hdcov", f"{a} {b} 60 {C.flist(xs)}", kind="hdcov", a=a, b=b, xs=xs, impl=hcov)
+            # large workloads (the ld band simulation evaluates ~1e5 points per call): the same grid points as part of a call with more
+            # than 10^4 .. 10^5 points in all -- one long x array, and (a, b) columns broadcast against a long x row -- judged by the same
+            # exact brackets: the value at a point does not depend on how many other points travel with it
+            big_i += 1
+            if big_i % (6 if tier == "quick" else 2) == 0:
+                brng = C.rng_for(f"C15.big.{a}.{b}", seed)
+                m = brng.choice([10_001, 12_000, 20_000, 100_003])
+                filler = np.array([brng.random() for _ in range(64)])
+                long_x = np.concatenate([xa, np.resize(filler, m - len(xa))])
+                forms = [("x[%d]" % m, lambda: util.beta_highest_density_coverage(a, b, long_x)[:len(xa)])]
+                if m <= 20_000:
+                    half = np.concatenate([xa, np.resize(filler, m // 2 + 1 - len(xa))])
+                    forms.append(("(a,b)[2,1] x x[%d]" % len(half),
+                                  lambda: util.beta_highest_density_coverage(np.array([[a], [a]]), np.array([[b], [b]]), half)[1, :len(xa)]))
+                for lab, fn in forms:
+                    rep.count("hdcov:large_call:" + ("x>1e4" if lab.startswith("x[") else "broadcast>1e4"))
+                    try:
+                        big = np.asarray(fn(), dtype=float)
+                    except Exception as e:  # noqa: BLE001
+                        rep.violate(what="beta_highest_density_coverage raised on a large array of valid points", input=dict(a=a, b=b, call_shape=lab), error=repr(e),
+                                    call="beta_highest_density_coverage")
+                        continue
+                    add("beta.hdcov", f"{a} {b} 60 {C.flist(xs)}", kind="hdcov", a=a, b=b, xs=xs, impl=big)
 
         # ---- coverages next to 1 asked for by themselves, for small and skewed (a, b) (every tier): one scalar call per coverage,
         # one array call holding only such coverages, and one call with (a, b) arrays and a single scalar coverage.  Judged like
